@@ -95,9 +95,23 @@ class StageP:
 
     def theorem_names_of(self, path):
         src = strip_lean_comments(open(path).read())
-        ns = re.findall(r'^namespace\s+(\S+)', src, re.M)
-        prefix = ns[0] + '.' if ns else ''
-        return [prefix + m for m in re.findall(r'^theorem\s+([A-Za-z0-9_\.\']+)', src, re.M)]
+        names, stack = [], []                  # stack of open blocks: a namespace name, or None for section / mutual
+        for line in src.split('\n'):
+            m = re.match(r'^namespace\s+(\S+)', line)
+            if m:
+                stack.append(m.group(1))
+                continue
+            if re.match(r'^\s*(section|mutual|noncomputable section)\b', line):
+                stack.append(None)
+                continue
+            if re.match(r'^\s*end\b', line):
+                if stack:
+                    stack.pop()
+                continue
+            m = re.match(r'^theorem\s+([A-Za-z0-9_\.\']+)', line)
+            if m:
+                names.append('.'.join([x for x in stack if x] + [m.group(1)]))
+        return names
 
     def theorem_names(self):
         names = []
